@@ -24,6 +24,10 @@ type Case struct {
 	QLookback int64        `json:"query_lookback_ms"` // per query, 0 = unset
 	Procs     int          `json:"gomaxprocs"`
 	Data      []SeriesData `json:"-"`
+
+	// how the baseline of a self-comparison was computed (nil: newImpl with Cfg()); the guards
+	// that re-run the baseline on perturbed data use it
+	baseMaker func(EngineCfg) queryMaker
 }
 
 func (c *Case) Cfg() EngineCfg {
@@ -643,7 +647,20 @@ func genCase(seed int64, id int, o GenOpts) *Case {
 		c.Lookback = 300_000
 		c.Procs = pick(r, []int{2, 8, 16})
 		c.Data = pairData(c.Window)
-		c.Query = pairQuery(r, id)
+		// scattered over the whole space (a bijection of the case ids modulo its size), so that a
+		// short sweep already sees every template and both ends of the selector list
+		c.Query = pairQuery(r, int((int64(id)*1_000_003+seed*7919)%int64(pairSpaceSize())))
+		return c
+	}
+	if o.Focus == "subpairs" {
+		c.Window = Window{Start: 900_000, End: 1_200_000, Step: 30_000}
+		if id%5 == 0 {
+			c.Window = Window{Start: 1_000_000, End: 1_000_000, Step: 0}
+		}
+		c.Lookback = pick(r, []int64{300_000, 60_000})
+		c.Procs = pick(r, []int{2, 8, 16})
+		c.Data = pairData(c.Window)
+		c.Query = subpairQuery(r)
 		return c
 	}
 	c.Window = genWindow(r)
